@@ -22,7 +22,9 @@ CONSTANT Star   \* TRUE: the small alphabet for the regex whose group may be emp
 StarLines == { L("ide", <<>>, 0, 0, 0), L("ide", <<>>, 2, 0, 1), L("ide", K_a, 0, 0, 0), L("ide", K_a, 0, 0, 2),
                L("id", K_a, 0, 0, 0), L("k", K_a, 0, 0, 0), L("blank", <<>>, 0, 0, 0) }
 AllLines == MCLines
-MCLinesSel == IF Star THEN StarLines ELSE AllLines
+\* (the longest run of the thorough tier, 5-line blocks, leaves out two line classes: TLC builds the set of all blocks
+\*  in Init and refuses sets of more than 10^6 elements -- 16^5 is just over it, 14^5 is not)
+MCLinesSel == IF Star THEN StarLines ELSE IF Wide THEN AllLines ELSE AllLines \ {L("uws", <<>>, 2, 0, 0), L("k", K_e, 0, 0, 0)}
 MCConfigs == { [kind |-> "unique", dir |-> "asc", sp |-> "", pat |-> p, fmt |-> "lex",
                 lp |-> "any", op |-> "==", n |-> 0] : p \in (IF Star THEN {"gstar"} ELSE IF Wide THEN {"none", "group", "plain", "galt", "ganch"} ELSE {"none", "group", "plain"}) }
 =============================================================================
